@@ -36,7 +36,7 @@ class C04(Prop):
             "Non-trivial = a write that succeeded and was read back, or a refused write; distinct by full case.")
     assumptions = ["sample values are representable at the declared depth",
                    "PRESTO .inf passes tsamp/tstart/DM through decimal formatting (compared to its precision)"]
-    regimes_expected = ["fil-same-dtype", "fil-other-dtype", "fil-subbyte", "block", "tim", "dat", "spec", "fft"]
+    regimes_expected = ["fil-same-dtype", "fil-other-dtype", "fil-other-dtype-nonflat-layout", "fil-subbyte", "block", "tim", "dat", "spec", "fft"]
     budget_s = (120, 900)
 
     def _fil_case(self, rng):
@@ -47,7 +47,10 @@ class C04(Prop):
         dt = rng.choice(list(DT))
         nch = rng.choice((1, 1, 2, 3))
         parts = spfiles.splits_of(rng, n, min(nch, n))
-        return {"kind": "fil", "nbits": nbits, "C": C, "n": n, "dtype": dt, "parts": parts,
+        # in-memory layout of each chunk handed to cwrite (>= 8 bit only: the packers take contiguous 1-D input):
+        # flat 1-D, strided 1-D view, C-ordered (k, C) matrix, transposed view of a (C, k) matrix
+        layout = rng.choice(("flat", "flat", "strided", "2d", "T")) if nbits >= 8 else "flat"
+        return {"kind": "fil", "nbits": nbits, "C": C, "n": n, "dtype": dt, "parts": parts, "layout": layout,
                 "vals": values_for(rng, n * C, min(nbits, 8) if dt == "uint8" else nbits), "tsamp": rng.choice((64e-6, 1e-3)),
                 "tstart": rng.choice((58000.0, 59123.456789)), "dm": rng.choice((0.0, 56.7))}
 
@@ -81,7 +84,7 @@ class C04(Prop):
             for nbits in (1, 2, 4, 8, 16, 32):
                 c = self._fil_case(rng)
                 cm = {1: 8, 2: 4, 4: 2}.get(nbits, 1)
-                c.update(nbits=nbits, C=cm, dtype=dt, n=3, parts=[2, 1],
+                c.update(nbits=nbits, C=cm, dtype=dt, n=3, parts=[2, 1], layout="flat" if nbits < 8 else c["layout"],
                          vals=values_for(rng, 3 * cm, min(nbits, 8) if dt == "uint8" else nbits))
                 cases.append(c)
         cases += [self._block_case(rng) for _ in range(30 * k)]
@@ -113,8 +116,18 @@ class C04(Prop):
         pos = 0
         werr = None
         for k in case["parts"]:
+            chunk = arr[pos * C:(pos + k) * C]
+            layout = case.get("layout", "flat")
+            if layout == "strided":
+                big = np.zeros(2 * chunk.size, dtype=chunk.dtype)
+                big[::2] = chunk
+                chunk = big[::2]
+            elif layout == "2d":
+                chunk = chunk.reshape(k, C)
+            elif layout == "T":
+                chunk = np.ascontiguousarray(chunk.reshape(k, C).T).T      # logical (k, C), column-major memory
             try:
-                w.cwrite(arr[pos * C:(pos + k) * C])
+                w.cwrite(chunk)
             except Exception as e:  # noqa: BLE001
                 werr = exc_name(e)
                 break
@@ -297,6 +310,8 @@ class C04(Prop):
         if case["nbits"] < 8:
             return "fil-subbyte"
         native = {8: "uint8", 16: "uint16", 32: "float32"}[case["nbits"]]
+        if case.get("layout", "flat") != "flat" and case["dtype"] != native:
+            return "fil-other-dtype-nonflat-layout"
         return "fil-same-dtype" if case["dtype"] == native else "fil-other-dtype"
 
 
